@@ -2129,6 +2129,10 @@ L310:
 
     ++ *(stop->nevals_p);
     f = calfun(*n, &x[1], calfun_data);
+    if (nlopt_stop_forced(stop)) {
+       rc = NLOPT_FORCED_STOP;
+       goto L530;
+    }
     if (f < stop->minf_max) {
        rc = NLOPT_MINF_MAX_REACHED;
        goto L530;
